@@ -11,6 +11,7 @@ import (
 	"fmt"
 	"os"
 	"sort"
+	"strconv"
 	"time"
 
 	"github.com/algorand/go-algorand/config"
@@ -106,6 +107,17 @@ type haRun struct {
 	lateNodes map[int]bool // S4: nodes from which payloads are withheld
 	crown     map[int]bool // when set, only these nodes receive anything (one-way starvation of the others)
 	crownTill time.Duration
+
+	// S7 (late payload past the deadline + split delivery of cert and next votes), re-drawn every round
+	s7round  basics.Round
+	s7late   map[int]bool  // nodes that get payloads late
+	s7delay  time.Duration // payload delay (relative to when the payload was sent, i.e. ~ the start of the period)
+	s7crown  int           // the node that sees cert votes first (and next votes late); -1: not chosen yet
+	s7pickAt int           // 0: the sender of the round's first cert vote is crowned; 1: a PRNG-chosen node
+	s7split  time.Duration // how much later the other side sees the withheld votes
+	s7payloadAt time.Duration // latest scheduled arrival of a late payload of this round
+	s7jitter    time.Duration // next votes reach the non-crowned nodes this long after the late payload
+	s7nextNow   bool          // variety: next votes are not held back
 	lastPos   string
 	certSeen  map[basics.Round]bool
 	tail      bool
@@ -187,7 +199,7 @@ func haExec(c *kit.Ctx, cs *haCase) (res haResult) {
 	mon.ref = haNewLedger(cl, -1)
 	cl.nonce = cs.NonceFactory
 	run := &haRun{cl: cl, cs: cs, r: r, group: make([]int, cs.Nodes), frozen: make([]bool, cs.Nodes), thawAt: make([]time.Duration, cs.Nodes),
-		lateNodes: map[int]bool{}, certSeen: map[basics.Round]bool{}, tailCommitAt: map[int]time.Duration{}, lagSince: map[int]time.Duration{}, flipPos: map[string]bool{}}
+		lateNodes: map[int]bool{}, s7crown: -1, certSeen: map[basics.Round]bool{}, tailCommitAt: map[int]time.Duration{}, lagSince: map[int]time.Duration{}, flipPos: map[string]bool{}}
 	if len(as) > 0 || cs.Adv == "replay" || cs.Adv == "malformed" || cs.Adv == "mix" {
 		run.adv = haNewAdv(run)
 	}
@@ -255,6 +267,9 @@ func haExec(c *kit.Ctx, cs *haCase) (res haResult) {
 	res.FastRecovery = res.TailVirtual >= lambda
 	if len(res.Findings) > 0 || res.HarnessFail != "" || !res.TailOK || os.Getenv("VERIF_HA_TRACE") != "" {
 		res.Trace = cl.traceTail(500)
+		if n, err := strconv.Atoi(os.Getenv("VERIF_HA_TRACE")); err == nil && n > 500 {
+			res.Trace = cl.traceTail(n)
+		}
 	}
 	return
 }
@@ -397,6 +412,10 @@ func (run *haRun) route(w *haWire, dst int) {
 		run.push(p)
 		return
 	}
+	if cs.Net == "S7" {
+		run.routeS7(w, dst, p)
+		return
+	}
 	// crown: only the crowned nodes receive
 	if run.crown != nil && !run.crown[dst] {
 		run.drops++
@@ -446,6 +465,98 @@ func (run *haRun) route(w *haWire, dst int) {
 		run.dups++
 		cl.sched("DUP %d->%d %s", w.src, dst, w.tag)
 	}
+}
+
+// s7Redraw draws the S7 parameters of a new round: which nodes get the payload late, how late relative to
+// their timers (mostly inside the window between the deadline timeout, at which a node without the block
+// next-votes bottom, and the following step timer; sometimes before or after it), who is crowned, and the split.
+func (run *haRun) s7Redraw(r basics.Round) {
+	cs := run.cs
+	run.s7round = r
+	run.s7late = map[int]bool{}
+	k := cs.Nodes // everybody but the proposer itself (which holds its own block) gets the payload late
+	if run.r.Chance(1, 4) {
+		k = cs.Nodes - 1 - run.r.Intn(2)
+	}
+	run.s7payloadAt = 0
+	run.s7jitter = time.Duration(5+run.r.Intn(600)) * time.Millisecond
+	run.s7nextNow = run.r.Chance(1, 5)
+	for _, i := range run.r.Perm(cs.Nodes)[:k] {
+		run.s7late[i] = true
+	}
+	deadline := config.Consensus[run.cl.version].AgreementDeadlineTimeoutPeriod0
+	switch run.r.Intn(20) {
+	case 0, 1, 2: // before the deadline (after the filter timeout)
+		run.s7delay = deadline - time.Duration(100+run.r.Intn(800))*time.Millisecond
+	case 3, 4: // after the next step timer
+		run.s7delay = deadline + recoveryExtraTimeout + time.Duration(100+run.r.Intn(5000))*time.Millisecond
+	default: // between the deadline timeout and the following step timer
+		run.s7delay = deadline + time.Duration(20+run.r.Intn(int(recoveryExtraTimeout/time.Millisecond)-40))*time.Millisecond
+	}
+	run.s7crown = -1
+	run.s7pickAt = 0
+	if run.r.Chance(1, 4) {
+		run.s7pickAt = 1
+	}
+	run.s7split = time.Duration(8+run.r.Intn(40)) * time.Second
+	run.cl.sched("S7 round=%d late=%v payload_delay=%v pick=%d split=%v", r, keysOf(run.s7late), run.s7delay, run.s7pickAt, run.s7split)
+}
+
+// routeS7: honest nodes only, delays only. Proposal votes and soft votes reach everybody at once; payloads reach
+// the late nodes after s7delay; cert votes reach the crowned node at once and the others s7split later; next
+// votes (and fast-recovery votes, bundles) reach the others at once and the crowned node s7split later.
+func (run *haRun) routeS7(w *haWire, dst int, p *haPending) {
+	cl := run.cl
+	if mx := run.maxNext(); mx != run.s7round {
+		run.s7Redraw(mx)
+	}
+	switch w.tag {
+	case protocol.ProposalPayloadTag:
+		o, err := decodeProposal(w.data)
+		if err == nil && o.(compoundMessage).Proposal.Round() == run.s7round && run.s7late[dst] {
+			p.at = cl.Now() + run.s7delay
+			if p.at > run.s7payloadAt {
+				run.s7payloadAt = p.at
+			}
+			cl.sched("S7 LATEPAYLOAD %d->%d at=%v", w.src, dst, p.at)
+		}
+	case protocol.AgreementVoteTag:
+		o, err := decodeVote(w.data)
+		if err != nil {
+			break
+		}
+		rv := o.(unauthenticatedVote).R
+		if rv.Round != run.s7round || rv.Period != 0 {
+			break // only period 0 of the current round is manipulated; later periods run undisturbed
+		}
+		if rv.Step == cert && run.s7crown < 0 {
+			run.s7crown = w.src
+			if run.s7pickAt == 1 {
+				run.s7crown = run.r.Intn(run.cs.Nodes)
+			}
+			cl.sched("S7 CROWN node=%d", run.s7crown)
+		}
+		switch {
+		case rv.Step == cert && run.s7crown >= 0 && dst != run.s7crown:
+			p.at = cl.Now() + run.s7split
+		case rv.Step >= next && run.s7crown >= 0 && dst == run.s7crown:
+			p.at = cl.Now() + run.s7split
+		case rv.Step >= next && !run.s7nextNow:
+			// the others see the next votes only after the late payload has arrived
+			if at := run.s7payloadAt + run.s7jitter; at > p.at {
+				p.at = at
+			}
+		}
+	case protocol.VoteBundleTag:
+		o, err := decodeBundle(w.data)
+		if err == nil {
+			b := o.(unauthenticatedBundle)
+			if b.Round == run.s7round && b.Period == 0 && run.s7crown >= 0 && dst == run.s7crown {
+				p.at = cl.Now() + run.s7split
+			}
+		}
+	}
+	run.push(p)
 }
 
 func keysOf(m map[int]bool) []int {
